@@ -215,6 +215,17 @@ def plain_machine_class():
     return PlainMachine
 
 
+class OrderAction:
+    """A user's event action (module level, so that pending events can be pickled)."""
+
+    def __init__(self, maintainer, target, tag):
+        self.maintainer, self.target, self.tag = maintainer, target, tag
+        self.__name__ = 'request_order'
+
+    def __call__(self):
+        self.maintainer.create_work_order(self.target, self.tag)
+
+
 def plain_simulation(system, index, params, seed):
     """A model built only from the library's own classes, the way a user writes one: the returned System is
     pickled with nothing of the harness inside it."""
@@ -241,8 +252,41 @@ def plain_simulation(system, index, params, seed):
     if params['sensor']:
         PeriodicSensor(1.5, [AttributeProbe('uptime', m3)], name='ps', data_capacity=5)
     for t in params['orders']:
-        system.env.schedule_event(t, mt.id, lambda: mt.create_work_order(m3, 'x'), 3)
-    system.simulate(params['horizon'], print_summary=False)
+        system.env.schedule_event(t, mt.id, OrderAction(mt, m3, 'x'), 3)
+    cut = params.get('persist_at')
+    if cut:
+        # the System is saved in the middle of the simulation (pickle / copy.deepcopy / utils.save_object, as in
+        # examples/SaveSimulationToFile.py) and the original is then continued: the saved copy holds what the original
+        # held at that moment, and saving disturbs nothing
+        system.simulate(cut, print_summary=False)
+        before = plain_digest(system)
+        how = params.get('persist_how', 'pickle')
+        if how == 'none':
+            loaded = system         # (reference: the same two runs without saving anything)
+        elif how == 'pickle':
+            import pickle
+            loaded = pickle.loads(pickle.dumps(system))
+        elif how == 'deepcopy':
+            import copy
+            loaded = copy.deepcopy(system)
+        else:
+            import os
+            import tempfile
+            from simprocesd.utils import save_object, load_object
+            fd, path = tempfile.mkstemp(prefix='simmon_save_', dir=os.environ.get('TMPDIR', '/tmp'))
+            os.close(fd)
+            try:
+                save_object(system, path, override_file=True)
+                loaded = load_object(path)
+            finally:
+                os.remove(path)
+        loaded.h_base = system.h_base
+        system.h_saved_ok = (plain_digest(loaded) == before and plain_digest(system) == before
+                             and sorted(getattr(a, 'name', '') or '' for a in loaded.find_assets())
+                             == sorted(getattr(a, 'name', '') or '' for a in system.find_assets()))
+        system.simulate(params['horizon'] - cut, print_summary=False)
+    else:
+        system.simulate(params['horizon'], print_summary=False)
     system.h_index = index
     system.h_digest = plain_digest(system)
 
@@ -393,6 +437,29 @@ def run(sh):
                 sh.count('plain_models_with_a_long_history')
             pcase = {'engine': 'parallel_plain', 'params': params, 'seed': seed, 'n': nsim}
             pref = System.simulate_multiple_times(plain_simulation, nsim, 0, params, seed)
+            if params['horizon'] < 100:
+                # the same runs with the System saved half-way (and the original continued)
+                cut = rng.choice([7.0, 12.5, 20.0])
+                # (reference: the same two consecutive runs with nothing saved in between - a second run draws one
+                # more tie-break weight for its end marker, so an unsplit run is not comparable under native ties)
+                psplit = System.simulate_multiple_times(plain_simulation, nsim, 0,
+                                                        dict(params, persist_at=cut, persist_how='none'), seed)
+                for how in ('pickle', 'deepcopy', 'save_object'):
+                    pp = dict(params, persist_at=cut, persist_how=how)
+                    psaved = System.simulate_multiple_times(plain_simulation, nsim, 0, pp, seed)
+                    badk = [k for k in range(nsim) if psaved[k].h_digest != psplit[k].h_digest
+                            or not getattr(psaved[k], 'h_saved_ok', False)]
+                    if badk:
+                        k = badk[0]
+                        sh.violation('saved_copy_differs' if not getattr(psaved[k], 'h_saved_ok', False) else 'split_differs',
+                                     f'plain model saved with {how} at {pp["persist_at"]} and continued: '
+                                     + ('the saved copy (or the original right after saving) differs from the original at that moment'
+                                        if not getattr(psaved[k], 'h_saved_ok', False)
+                                        else 'the continued original differs from the uninterrupted run: '
+                                        + first_diff(psplit[k].h_digest, psaved[k].h_digest)),
+                                     dict(pcase, params=pp), engine='parallel')
+                        break
+                    sh.count('runs_saved_half_way_and_continued', nsim)
             for mp in (1, 3, None):
                 pres = System.simulate_multiple_times(plain_simulation, nsim, mp, params, seed)
                 if [getattr(x, 'h_index', None) for x in pres] != list(range(nsim)):
